@@ -115,6 +115,13 @@ Definition with_children (g : graph) (i : N) : list N :=
   i :: (if N.eqb (type_of g i) T_DedicatedPort then first_neighbor g i RConnects CCP else []).
 Definition disc_list (g : graph) (ifs : list N) : list N := flat_map (with_children g) ifs.
 
+(* one iteration of Topology._disconnect_from_services (fix 5286851): an interface that is no longer in the graph as a
+   ConnectionPoint (node_exists) - a service port of the element's own services, removed when its peer was
+   disconnected - is skipped *)
+Definition disconnect_step (ii : N) : M unit :=
+  there <- m_get (fun g => has_node g ii && cls_eqb (class_of g ii) CCP) ;;
+  if there then disconnect_peers_of ii else ret tt.
+
 Definition uniq (l : list N) (none many : exn) : M N :=
   match l with
   | [x] => ret x
@@ -137,7 +144,7 @@ Definition api_remove_node (name : N) : M unit :=
   cands <- m_get (fun g => topo_nodes g name) ;;
   n <- uniq cands ETopology EAmbig ;;
   ifs <- m_get (fun g => disc_list g (node_interface_list g n)) ;;
-  for_each_set disconnect_peers_of ifs ;;;
+  for_each_set disconnect_step ifs ;;;
   all <- m_get (fun g => by_name g CNode name) ;;
   n' <- uniq all EQuery EQuery ;;
   remove_node_graph n'.
@@ -148,7 +155,7 @@ Definition api_remove_facility (name : N) : M unit :=
   t <- m_get (fun g => type_of g n) ;;
   guard (N.eqb t T_Facility) ETopology ;;;
   ifs <- m_get (fun g => disc_list g (node_interface_list g n)) ;;
-  for_each_set disconnect_peers_of ifs ;;;
+  for_each_set disconnect_step ifs ;;;
   all' <- m_get (fun g => by_name g CNode name) ;;
   n' <- uniq all' EQuery EQuery ;;
   remove_node_graph n'.
@@ -160,16 +167,22 @@ Definition api_remove_switch (name : N) : M unit :=
   guard (N.eqb t T_Switch) ETopology ;;;
   api_remove_node name.
 
+(* Topology.remove_link (fix 65db950): a link one of whose ends is a ServicePort was made by connect_interface / peer
+   together with that port and is refused *)
+Definition link_has_service_port (g : graph) (l : N) : bool :=
+  existsb (fun i => N.eqb (type_of g i) T_ServicePort) (first_neighbor g l RConnects CCP).
 Definition api_remove_link (name : N) : M unit :=
   all <- m_get (fun g => by_name g CLink name) ;;
   n <- uniq all EQuery EQuery ;;
+  sp <- m_get (fun g => link_has_service_port g n) ;;
+  guard (negb sp) ETopology ;;;
   remove_link_graph n.
 
 (* Topology.remove_network_service (fix 18b6247): the service's own ports (and the sub-interfaces of dedicated
    ports) are first disconnected from the services they are connected to / peered with *)
 Definition remove_ns_disconnecting (s : N) : M unit :=
   ifs <- m_get (fun g => disc_list g (first_neighbor g s RConnects CCP)) ;;
-  for_each_set disconnect_peers_of ifs ;;;
+  for_each_set disconnect_step ifs ;;;
   remove_ns s.
 
 Definition api_remove_ns_topo (name : N) : M unit :=
@@ -183,7 +196,7 @@ Definition api_remove_component (n : N) (cname : N) : M unit :=
   cs <- m_get (fun g => child_by_name g (first_neighbor g n RHas CComp) cname) ;;
   c <- uniq cs EQuery EAmbig ;;
   ifs <- m_get (fun g => disc_list g (comp_interface_list g c)) ;;
-  for_each_set disconnect_peers_of ifs ;;;
+  for_each_set disconnect_step ifs ;;;
   remove_component c.
 
 (* Node.remove_network_service(name) *)
